@@ -753,10 +753,54 @@ func (w *Worker) intrinsic(st *State, f *Frame, x ssa.Value, callee *ssa.Functio
 		set(Tuple{mkBV(0, 64), nilUnion()})
 	case "fmt.Sprintf":
 		fs, ok := constString(args[0])
-		if !ok {
-			panic(engineErr("Sprintf with symbolic format"))
+		if ok {
+			set(w.sprintf(st, fs, st.sliceElems(args[1].(SliceV))))
+			break
 		}
-		set(w.sprintf(st, fs, st.sliceElems(args[1].(SliceV))))
+		// a format built from program text (as for Fprintf above): symbolic code points that
+		// are all different from '%' are copied through; if one may be a '%', that path
+		// continues with an opaque text and the native replay decides what fmt produced
+		fsV := args[0].(StrV)
+		var none []Term
+		opaque := false
+		for _, g := range fsV.Segs {
+			switch g.K {
+			case SegRune:
+				none = append(none, mkNot(mkEq(g.T, mkBV('%', 32))))
+			case SegAtom:
+				if !asciiAtom(g.T) {
+					opaque = true
+				}
+			}
+		}
+		if len(none) > 0 || opaque {
+			condNone := mkAnd(none...)
+			canNone, canSome := true, opaque
+			if len(none) > 0 {
+				var cs bool
+				canNone, cs = w.branch(st, condNone)
+				canSome = canSome || cs
+			}
+			if canSome {
+				o := st
+				if canNone {
+					o = st.clone()
+				}
+				if len(none) > 0 && !opaque {
+					o.assume(mkNot(condNone))
+				}
+				if x != nil {
+					o.top().env[x] = atom(o.fresh(STxt))
+				}
+				if !canNone {
+					return true
+				}
+				w.push(o)
+			}
+			st.assume(condNone)
+		}
+		text, _ := w.sprintfSegs(st, fsV.Segs, st.sliceElems(args[1].(SliceV)))
+		set(text)
 	case "fmt.Sprint":
 		set(w.sprint(st, st.sliceElems(args[0].(SliceV)), false))
 	case "fmt.Errorf":
@@ -1065,6 +1109,16 @@ func (w *Worker) intrinsic(st *State, f *Frame, x ssa.Value, callee *ssa.Functio
 		for i := range elems {
 			elems[i] = strLit(strs[i])
 		}
+	case "strings.ContainsRune":
+		rs, ok := args[0].(StrV).runeLevel()
+		if !ok {
+			panic(engineErr("strings.ContainsRune on opaque text"))
+		}
+		var any []Term
+		for _, r := range rs {
+			any = append(any, mkEq(r, args[1].(Term)))
+		}
+		set(mkOr(any...))
 	case "strings.Contains":
 		a, b := args[0].(StrV), args[1].(StrV)
 		ca, oka := a.concrete()
@@ -1204,6 +1258,64 @@ func (w *Worker) intrinsic(st *State, f *Frame, x ssa.Value, callee *ssa.Functio
 		w.filepathExt(st, set, args[0].(StrV))
 	case "os.ReadFile":
 		w.osReadFile(st, set, args[0].(StrV))
+	case "os.Open":
+		// the script file of the process model, read sequentially: heap object = offset
+		p := w.proc(st)
+		if p.fileDir {
+			// a directory opens; reading it fails
+			set(Tuple{Ptr{id: st.alloc(StructV{mkBV(^uint64(0), 64)})}, nilUnion()})
+		} else if !p.fileOK {
+			set(Tuple{Ptr{}, w.mkErr(st, strLit("open: no such file or directory"))})
+		} else {
+			set(Tuple{Ptr{id: st.alloc(StructV{mkBV(0, 64)})}, nilUnion()})
+		}
+	case "os.IsNotExist":
+		// true exactly for the error the process model makes for a missing script file
+		eu := args[0].(*Union)
+		ek := kinds.of(synthErrType)
+		ev, isE := eu.P[ek].(ErrV)
+		msg, isC := ev.Msg.concrete()
+		if !isE || !isC {
+			set(mkBool(false))
+		} else {
+			set(mkAnd(eu.isKind(ek), mkBool(strings.Contains(msg, "no such file"))))
+		}
+	case "(*os.File).Close":
+		set(nilUnion())
+	case "(*os.File).Read":
+		// A-read: a read from a regular file fills the buffer as far as the file goes
+		fp, isPtr := args[0].(Ptr)
+		if !isPtr {
+			panic(engineErr("read from an unknown file"))
+		}
+		text, okc := w.proc(st).fileText.concrete()
+		if !okc {
+			panic(engineErr("(*os.File).Read on a symbolic script"))
+		}
+		off64, _ := st.heap[fp.id].(StructV)[0].(Term).intVal()
+		if off64 < 0 {
+			set(Tuple{mkBV(0, 64), w.mkErr(st, strLit("read: is a directory"))})
+			break
+		}
+		off := int(off64)
+		sl := args[1].(SliceV)
+		n := len(text) - off
+		if n > sl.n {
+			n = sl.n
+		}
+		if n <= 0 && sl.n > 0 {
+			set(Tuple{mkBV(0, 64), eofUnion()})
+		} else {
+			if n > 0 {
+				arr := append(ArrayV{}, st.heap[sl.id].(ArrayV)...)
+				for i := 0; i < n; i++ {
+					arr[sl.off+i] = mkBV(uint64(text[off+i]), 8)
+				}
+				st.heap[sl.id] = arr
+			}
+			st.heap[fp.id] = StructV{mkBV(uint64(off+n), 64)}
+			set(Tuple{mkBV(uint64(n), 64), nilUnion()})
+		}
 	case "bufio.NewReader":
 		// a fresh reader with an empty buffer over stdin (A-stdin); field 1: bytes of the
 		// current line already handed out by ReadLine
